@@ -226,6 +226,20 @@ add(
     "DESIGN.md section 4, C18",
 )
 
+add(
+    "C19", "exploration",
+    "metamorphic property-based testing (Hypothesis) over the container x layout x name x cores x format product, "
+    "full product on fixed inputs (sweep), format oracle from the file name",
+    "For generated inputs and option sets the run is repeated under combinations of input container (plain, gz, "
+    "multi-member gz, bz2, xz, zst), input layout, output container, output layout, output name, core count and input "
+    "format; decompressed record streams must equal the baseline run, interleaved must equal the zip of two files, "
+    "FASTA input must give the same names and sequences, and the format written must be the one the name (before the "
+    "compression suffix) or --fasta requests, else the input format. The full product is enumerated for three fixed "
+    "inputs.",
+    "Held on everything explored after repository fixes F3, F9 and F12.",
+    "DESIGN.md section 4, C19",
+)
+
 NOT_APPLICABLE = []  # filled below for every property without a check
 
 ALL_IDS = [f"C{i:02d}" for i in range(1, 21)]
